@@ -26,12 +26,12 @@ ASSUMPTIONS = ["following the server's smaller block size in later Block1 reques
                "a non-block answer in the middle of a Block2 transfer may be accepted as the complete representation"]
 EXPECTED_PROBES = ["block1_multi", "block2_multi", "szx_reduced_block1", "szx_reduced_block2", "misbehave_b1_wrong_num",
                    "misbehave_b1_more_on_final", "misbehave_b2_short", "misbehave_b2_skip", "misbehave_b2_etag_change",
-                   "misbehave_b2_etag_presence_change", "block1_acked_without_more_bit", "block1_transfer_rejected_midway", "unfragmented_request_refused_with_size_hint", "retransmitted_block", "unfragmented_1124", "separate_response", "empty_ack_lost_response_delivered", "error_response_mid_transfer", "empty_final_block", "download_from_a_chosen_block_on"]
+                   "misbehave_b2_etag_presence_change", "block1_acked_without_more_bit", "block1_transfer_rejected_midway", "unfragmented_request_refused_with_size_hint", "retransmitted_block", "unfragmented_1124", "separate_response", "empty_ack_lost_response_delivered", "error_response_mid_transfer", "empty_final_block", "download_from_a_chosen_block_on", "success_code_changes_mid_transfer"]
 
 LENGTHS = [0, 1, 15, 16, 17, 31, 32, 33, 63, 64, 65, 127, 128, 129, 511, 512, 513, 1023, 1024, 1025, 1124, 1125,
            2047, 2048, 2049, 3000, 5000]
 MISBEHAVE = ["b1_wrong_num", "b1_more_on_final", "b1_231_on_final", "b2_short", "b2_skip", "b2_etag_change",
-             "b2_first_num_wrong", "b2_nonblock_mid", "b2_etag_dropped", "b2_etag_appears", "b2_error_mid"]
+             "b2_first_num_wrong", "b2_nonblock_mid", "b2_etag_dropped", "b2_etag_appears", "b2_error_mid", "b2_code_change"]
 METHODS = {"GET": rc.GET, "PUT": rc.PUT, "POST": rc.POST, "FETCH": rc.FETCH}
 
 
@@ -435,6 +435,12 @@ class RefServer7959(ScriptedEndpoint):
         if more:
             if k >= 1:
                 self.sim.probe("block2_multi")
+        if mb == "b2_code_change" and k == max(1, spec["at"]) and start > 0:
+            # a later block arrives under another SUCCESS code than the first (2.04 after 2.05 or the other way round):
+            # whatever that is, it is not the next part of the representation being assembled
+            code = rc.CHANGED if code == rc.CONTENT else rc.CONTENT
+            st["misbehaved"] = True
+            self.sim.probe("success_code_changes_mid_transfer")
         if mb == "b2_short" and more and k == spec["at"] and len(chunk) > 1:
             chunk = chunk[:-1]
             st["misbehaved"] = True
